@@ -120,7 +120,10 @@ def build_file(ch, ctx):
             sc.node = refavro.resolve(sc.schema)
             sc.records = [{"serial": i} for i in range(64 + ch.draw(80))]
             sc.sync_interval = 16000
-        data = common.fa_file(sc)
+        try:
+            data = common.fa_file(sc)
+        except Exception as e:  # noqa
+            raise Violation("baseline", "writer-raises", detail={"exc": common.jsonable(e)}, scenario=sc.describe())
         return data, "fastavro", sc.describe(), [common.strip_hints(r, sc.node) for r in sc.records], sc.node
     if src == 1:
         # foreign writer: any partition incl. empty blocks, multi-chunk header, codec key absent
